@@ -316,13 +316,21 @@ def task_remove_object():
         root = ctx.new_node({'ClassDef'}, name='root')
         install_common(interp, policy, ctx, mod.RemoveObject, root)
         o = interp.instantiate(mod.RemoveObject, [], {})
+        builtin = z3.Bool('object_is_the_builtin_in_this_module')
+        ctx.data(o).fields['object_is_builtin'] = builtin
         rd = ctx.data(root)
         before = dict((f, interp.getattr(root, f)) for f in ('name', 'bases', 'keywords', 'body', 'decorator_list', 'type_params'))
         r = interp.call(interp.getattr(o, 'visit_ClassDef'), [root], {})
         pruned.update(interp.pruned)
         ctx.check(name + '/returns-the-class', r == root, kind='post')
         nb = rd.fields['bases']
-        ctx.check(name + '/bases-is-a-filter-of-the-original-bases', isinstance(nb, SymIter) and nb.src == before['bases'], kind='post', detail=repr(nb))
+        if nb is before['bases'] or nb == before['bases']:
+            # nothing removed: only allowed to be forced when the name object may be rebound (C01: class C(object) == class C only for the builtin)
+            ctx.check(name + '/bases-untouched-only-when-object-may-be-rebound', z3.Not(builtin), kind='post')
+        else:
+            ctx.check(name + '/bases-filtered-only-when-object-is-the-builtin', builtin, kind='post',
+                      detail='class C(object) is class C only if object is the builtin (C01 adequacy side condition)')
+            ctx.check(name + '/bases-is-a-filter-of-the-original-bases', isinstance(nb, SymIter) and nb.src == before['bases'], kind='post', detail=repr(nb))
         if isinstance(nb, SymIter):
             e = interp.list_elem(before['bases'], ('spec',))
             v = nb.fn(e)
@@ -341,7 +349,83 @@ def task_remove_object():
         ctx.check(name + '/body-statements-are-visited-in-order', okb, kind='post', detail=repr(body))
     ex = Explorer()
     ex.explore(run)
-    return finish(ex, name, [source.describe(T + 'remove_object_base:RemoveObject.visit_ClassDef')], pruned)
+    res = finish(ex, name, [source.describe(T + 'remove_object_base:RemoveObject.visit_ClassDef')], pruned)
+
+    # __call__: the flag is the negation of rebinds_object(module); rebinds_object: True as soon as ANY node of the module binds the name object
+    import python_minifier.ast_compat as compat
+
+    def run_call(ctx):
+        policy = TransformPolicy()
+        interp = Interp(ctx, policy=policy)
+        root = ctx.new_node({'Module'}, name='root')
+        install_common(interp, policy, ctx, mod.RemoveObject, root)
+        rb = z3.Bool('some_node_rebinds_object')
+        asked = []
+        interp.hooks[T + 'remove_object_base:rebinds_object'] = lambda it, f, a, k: (asked.append(a[0]), rb)[1]
+        visited = []
+        for k in mod.RemoveObject.__mro__:
+            if k.__module__.startswith('python_minifier') and 'visit' in k.__dict__:
+                interp.hooks['%s:%s.visit' % (k.__module__, k.__name__)] = lambda it, f, a, kw: (visited.append(a[1]), a[1])[1]
+        o = interp.instantiate(mod.RemoveObject, [], {})
+        interp.call(interp.getattr(o, '__call__'), [root], {})
+        flag = ctx.data(o).fields.get('object_is_builtin')
+        fz = flag if z3.is_expr(flag) else z3.BoolVal(bool(flag))
+        ctx.check('C05/RemoveObject.__call__/object-counts-as-builtin-exactly-when-nothing-in-the-module-rebinds-it', z3.And(z3.BoolVal(asked == [root]), fz == z3.Not(rb)),
+                  kind='post', detail='rebinds_object asked for %r' % (asked,))
+        ctx.check('C05/RemoveObject.__call__/the-module-is-visited', visited == [root], kind='post')
+    ex2 = Explorer()
+    ex2.explore(run_call)
+    r2 = finish(ex2, 'C05/RemoveObject.__call__', [source.describe(T + 'remove_object_base:RemoveObject.__call__')], set())
+
+    def run_rebinds(ctx):
+        policy = TransformPolicy()
+        interp = Interp(ctx, policy=policy)
+        policy.interp = interp
+        root = ctx.new_node({'Module'}, name='root')
+        walked = sym_node_list(ctx, 'walked', set(tag_universe()['names']))
+        calls = []
+        interp.natives[compat.walk] = lambda it, a, k: (calls.append(a[0]), walked)[1]
+        f = getattr(mod, 'rebinds_object')
+        r = interp.call(interp.wrap(f), [root], {})
+        rz = r if z3.is_expr(r) else z3.BoolVal(bool(r))
+        ctx.check('C05/rebinds_object/walks-the-whole-module', calls == [root], kind='post')
+        OBJ = z3.StringVal('object')
+        binds = []
+        for k, e in list(ctx.data(walked).items.items()):
+            if not isinstance(e, Obj):
+                continue
+            ed = ctx.data(e)
+
+            def fld(n):
+                return interp.getattr(e, n)
+            for tags, cond in (
+                    ({'Name'}, lambda: z3.And(fld('id') == OBJ, ctx.data(fld('ctx')).tagvar != tag_const('Load'))),
+                    ({'FunctionDef', 'AsyncFunctionDef', 'ClassDef'}, lambda: fld('name') == OBJ),
+                    ({'arg'}, lambda: fld('arg') == OBJ),
+                    ({'Global', 'Nonlocal'}, None)):
+                if ed.tags & tags and ctx.branch(z3.Or([ed.tagvar == tag_const(t) for t in sorted(ed.tags & tags)])):
+                    interp.narrow(e, ed.tags & tags)
+                    if cond is not None:
+                        binds.append(cond())
+                    break
+        if binds:
+            ctx.check('C05/rebinds_object/a-node-that-binds-the-name-object-is-reported', z3.Implies(z3.Or(binds), rz), kind='post',
+                      detail='arbitrary node of ast.walk(module): store/del of object, def/class object, parameter object')
+        else:
+            ctx.check('C05/rebinds_object/cover-other-node-classes', True, kind='cover')
+    if not hasattr(mod, 'rebinds_object'):
+        res['obligations'].append({'name': 'C05/rebinds_object/engine', 'status': 'undecided', 'detail': 'function rebinds_object no longer exists', 'model': {}, 'time_s': 0,
+                                   'backend': 'engine', 'path': None, 'kind': 'engine', 'goal': None})
+        res['obligations'] += r2['obligations']
+        return res
+    ex3 = Explorer(max_paths=3000)
+    ex3.explore(run_rebinds)
+    r3 = finish(ex3, 'C05/rebinds_object', [source.describe(T + 'remove_object_base:rebinds_object')], set())
+    for rr in (r2, r3):
+        res['obligations'] += rr['obligations']
+        res['functions'] += rr['functions']
+        res['notes'] += rr['notes']
+    return res
 
 
 def task_posargs():
